@@ -210,7 +210,7 @@ def load_known(prop_id):
 # written by harness/py2lean.py on every run) belong to which property, and which source files they render.
 SRC_TIE = {
     'C01': ['Codec', 'Msg'], 'C02': ['Codec', 'Msg', 'MsgDecision'], 'C03': ['Codec'],
-    'C04': ['Tok', 'Parser', 'ParserSession'], 'C05': ['Tok', 'Parser', 'ParserSession'], 'C06': ['Tok', 'Parser', 'ParserSession'], 'C18': ['Tok'], 'C19': ['Tok'],
+    'C04': ['Tok', 'Parser', 'ParserSession'], 'C05': ['Tok', 'Parser', 'ParserSession'], 'C06': ['Tok', 'Parser', 'ParserSession'], 'C18': ['Tok'], 'C19': ['Tok', 'Parser', 'Syx'],
     'C07': ['Vlq', 'VlqRead', 'Tracks', 'Writer', 'Reader', 'FileRoundTrip'], 'C08': ['Vlq', 'VlqRead', 'Writer', 'Reader', 'FileConformance'], 'C09': ['Meta', 'Vlq', 'MetaFrame', 'MetaRoundTrip'], 'C10': ['Ports'], 'C11': ['Ports', 'PortsLifecycle'],
     'C12': ['Tracks', 'TracksMerge'], 'C17': ['Charset'], 'C16': ['Tracks'],
 }
@@ -219,6 +219,7 @@ SRC_TIE_FILES = {
     'Parser': ['mido/parser.py', 'mido/tokenizer.py'],
     'MetaFrame': ['mido/midifiles/meta.py'],
     'Ports': ['mido/ports.py'],
+    'Syx': ['mido/syx.py', 'mido/parser.py', 'mido/tokenizer.py'],
     'Charset': ['mido/midifiles/meta.py'],
     'TracksMerge': ['mido/midifiles/tracks.py'],
     'FileConformance': ['mido/midifiles/midifiles.py', 'mido/midifiles/tracks.py', 'mido/midifiles/meta.py'],
@@ -409,6 +410,20 @@ class Check:
                 reqs.append('pyop slicefrom %d %s' % (lo, ' '.join(map(str, xs)))); want.append(' '.join(map(str, xs[lo:])))
                 for hi in (-7, -2, 0, 1, 3, 5, 8):
                     reqs.append('pyop slice %d %d %s' % (lo, hi, ' '.join(map(str, xs)))); want.append(' '.join(map(str, xs[lo:hi])))
+        # text of SYX files: re.sub(r'\\s', ' ', text) on latin1 text and bytearray.fromhex
+        import re as _re
+        alphabet = list('0123456789abcdefABCDEF') * 3 + [' ', ' ', '\t', '\n', '\r', '\x0b', '\x0c', '\x1c', '\x1f', '\x85', '\xa0', 'g', 'x', '-', '+', '\xe9', '_']
+        for _ in range(150):
+            txt = ''.join(rng.choice(alphabet) for _ in range(rng.randint(0, 12)))
+            if rng.random() < 0.5:
+                txt = ' '.join('%02x' % rng.randint(0, 255) for _ in range(rng.randint(0, 6))) + rng.choice(['', ' ', '\n', '\t', 'f', ' 0'])
+            codes = ' '.join(str(ord(c)) for c in txt)
+            reqs.append('pyop subws ' + codes); want.append(' '.join(str(ord(c)) for c in _re.sub(r'\s', ' ', txt)))
+            try:
+                w = 'ok ' + ' '.join(map(str, bytearray.fromhex(txt)))
+            except ValueError:
+                w = 'err ValueError'
+            reqs.append('pyop fromhex ' + codes); want.append(w.rstrip())
         for n in (-2, 0, 1, 5):
             reqs.append(f'pyop range {n}'); want.append(' '.join(map(str, range(n))))
         # dicts: insertion order, d[k] = v on an existing key keeps its place, update(), {k: v for ...} with repeated keys
